@@ -1077,6 +1077,22 @@ def run(res, ctx, violate):
     for case, info, a in spans:
         for k, c in enumerate(info):
             res.count("sync-close-call:" + c["call"] + ("/raised" if c["raised"] else ""))
+            if out[a + k] != "ok" and c["call"] == "concurrent-closers":
+                # the total order handed to the model is *reconstructed* from the start and end instants of the calls (loop-side work of
+                # a call is placed by rule, see `conc_line`); under heavy machine load an interleaving the rule misplaces is possible.
+                # The rejected line is kept in the evidence notes; the scenario is observed again (twice at most) and only a scenario
+                # rejected every time is a disagreement.
+                res.count("conc-replay-rejected-once")
+                res.notes.append("c17conc rejected (%s): %s" % (out[a + k], c.get("line")))
+                again = "rejected"
+                for _ in range(2):
+                    _bad, calls2 = run_one(dict(case), with_calls=True)
+                    ls2, _info2 = sync_lines(calls2)
+                    if ls2 and all(x == "ok" for x in C.run_driver(ls2)):
+                        again = "ok"
+                        break
+                if again == "ok":
+                    continue
             if out[a + k] != "ok":
                 res.disagree("c17sync", {"case": case, "call": {x: c[x] for x in ("call", "caller", "before", "after", "goodbyes", "raised")}},
                              "observed", out[a + k])
